@@ -183,6 +183,16 @@ CHECKS.update({
              'The projection walks the object graph itself (not get_features/get_relations), so a misplaced operand or stale parent pointer is visible.'),
 })
 
+EDIT_ADD = (' Edit histories (FM.tla stage 6): the built model is observed, then edited IN PLACE through public attributes '
+            '(cardinality, add / remove / replace a child, abstract flag, attribute value, remove a constraint, root operator of a '
+            'constraint, rename) and observed again by the same objects and by fresh ones - exhaustively for every single edit of '
+            'every small model, and along seeded walks with up to three edits of larger ones; the specification gives the '
+            'successor state of every edit.')
+CHAIN_ADD = (' Cross-format chains (x-<a>-<b>-*): models inside both fragments are written and read with another format first, so '
+             'that the model THAT reader built is the source of this format\'s cycles.')
+ADDENDA = {p: EDIT_ADD for p in ('C03', 'C10', 'C11', 'C12', 'C13', 'C14', 'C15', 'C16', 'C17', 'C19', 'C20')}
+ADDENDA.update({p: EDIT_ADD + CHAIN_ADD for p in ('C01', 'C05', 'C06', 'C07', 'C08')})
+
 REASON_TODO = 'check not built yet (build in progress; see DESIGN.md section 12)'
 
 
@@ -200,7 +210,7 @@ def main():
             'evidence_file': 'evidence/%s.json' % pid,
             'replay_cmd_template': './check --replay {path}',
             'engine': 'tla-trace',
-            'level_claimed': {'category': 'model_checking', 'text': c['text'], 'design_ref': c['design_ref']},
+            'level_claimed': {'category': 'model_checking', 'text': c['text'] + ADDENDA.get(pid, ''), 'design_ref': c['design_ref']},
             'level_note': c.get('note', COMMON_NOTE),
             'technique': c['technique'],
         })
